@@ -165,6 +165,7 @@ def run(ctx):
                             meta.append(case)
     finally:
         P.randint = old
+    handler_cases(ctx, P, cases, meta)
     # constructor validation (negative delays / max < base / negative attempts are rejected)
     for args, kw in (((-1,), {}), ((1,), {'max_attempts': -1})):
         try:
@@ -189,8 +190,91 @@ def run(ctx):
     ctx.assume('jitter = randint(85, 115) is an arbitrary integer in 85..115 (scripted in the correspondence)')
 
 
+class FakeScheduler(object):
+    def __init__(self):
+        self.calls = []     # (delay, fn)
+
+    def schedule(self, delay, fn, *a, **k):
+        self.calls.append((delay, fn))
+
+
+def run_handler(schedule_items, outcomes):
+    """Drive the real _HostReconnectionHandler: returns ('raise', name) or the list of delays passed to the scheduler,
+    plus the number of reconnection attempts made."""
+    from vf.impl import import_cluster
+    import_cluster()
+    from cassandra.pool import _HostReconnectionHandler
+    from cassandra import AuthenticationFailed
+    sched = FakeScheduler()
+    attempts = [0]
+    outs = list(outcomes)
+
+    class Conn(object):
+        def close(self):
+            pass
+
+    def factory():
+        attempts[0] += 1
+        o = outs.pop(0) if outs else 'fail'
+        if o == 'fail':
+            raise OSError('connection refused')
+        if o == 'auth':
+            raise AuthenticationFailed('bad credentials')
+        return Conn()
+    h = _HostReconnectionHandler('host1', factory, False, lambda host: None, lambda host: None,
+                                 sched, iter(schedule_items), lambda *a, **k: None)
+    try:
+        h.start()
+    except StopIteration:
+        return 'raise', 0
+    i = 0
+    while i < len(sched.calls) and i < 500:
+        fn = sched.calls[i][1]
+        i += 1
+        fn()
+    return [d for d, _ in sched.calls], attempts[0]
+
+
+def handler_cases(ctx, P, cases, meta):
+    """_ReconnectionHandler consumes the whole schedule: attempts made == delays yielded, delays used in order."""
+    scheds = [[F(0)] * 3, [F(0)], [F(1, 2), F(0), F(3)], [F(2)] * 5, [], [F(1), F(2), F(4), F(8)]]
+    pol0 = P.ConstantReconnectionPolicy(0, max_attempts=3)
+    for items in scheds:
+        for outcomes in (['fail'] * 8, ['fail', 'ok'], ['fail', 'auth', 'fail'], ['ok'], ['fail', 'fail', 'ok']):
+            got = run_handler(items, outcomes)
+            case = {'policy': 'handler', 'schedule': [str(x) for x in items], 'outcomes': outcomes}
+            ctx.case(['handler', [str(x) for x in items], outcomes], nontrivial=len(items) > 0,
+                     sample=dict(case, scheduled=str(got[0]), attempts=got[1]))
+            ctx.count('policy', 'handler')
+            if got[0] != 'raise' and all(o == 'fail' for o in outcomes) and len(outcomes) >= len(items):
+                delays, n_att = got
+                if n_att != len(items) or [F(d) for d in delays] != list(items):
+                    ctx.violation('_ReconnectionHandler.run.schedule-not-exhausted',
+                                  'schedule %r allows %d reconnection attempts, the handler made %d (delays used %r)'
+                                  % ([str(x) for x in items], len(items), n_att, [str(d) for d in delays]),
+                                  case=case, expected=len(items), actual=n_att, theorem='C24_handler_uses_whole_schedule')
+            oc = '[' + '; '.join({'fail': 'AFail', 'auth': 'AAuthFail', 'ok': 'ASucceed'}[o] for o in outcomes) + ']'
+            impl = 'None' if got[0] == 'raise' else '(Some [%s])' % '; '.join(q(d) for d in got[0])
+            cases.append('optlistQ_eqb (handler [%s] %s) %s' % ('; '.join(q(x) for x in items), oc, impl))
+            meta.append(case)
+    # and with a real policy schedule of zero delays
+    got = run_handler(pol0.new_schedule(), ['fail'] * 10)
+    if got[0] != 'raise' and got[1] != 3:
+        ctx.violation('_ReconnectionHandler.run.schedule-not-exhausted',
+                      'ConstantReconnectionPolicy(0, max_attempts=3): handler made %d attempts instead of 3' % got[1],
+                      case={'policy': 'handler', 'schedule': ['0', '0', '0'], 'outcomes': ['fail'] * 10},
+                      expected=3, actual=got[1], theorem='C24_handler_uses_whole_schedule')
+
+
 def replay(ctx, rp):
     import cassandra.policies as P
+    if (rp.get('case') or {}).get('policy') == 'handler':
+        c = rp['case']
+        got = run_handler([F(x) for x in c['schedule']], c['outcomes'])
+        print('replay handler %r -> scheduled %r attempts %r' % (c, [str(d) for d in got[0]] if got[0] != 'raise' else got[0], got[1]))
+        bad = got[0] != 'raise' and got[1] != len(c['schedule'])
+        print(('VIOLATION property=C24 replay=%s' % ctx.replay_path) if bad else 'not reproduced')
+        return 1 if bad else 0
     c = rp.get('case') or {}
     if c.get('policy') == 'constant':
         d = eval(c['delay'], {'Fraction': F})
